@@ -115,6 +115,33 @@ func allowedStates(k Kind) []queue.State {
 	return nil
 }
 
+// legalEdge: is r0.State -> r1.State an edge of the documented machine that
+// operation k may take (lease expiry may precede any operation)?
+func legalEdge(k Kind, r0, r1 vlib.Row, now int64) bool {
+	from, to := r0.State, r1.State
+	if from == queue.StateLeased && leaseExpired(r0, now) {
+		if to == queue.StateQueued {
+			return true
+		}
+		from = queue.StateQueued
+	}
+	switch k {
+	case KDequeue:
+		return from == queue.StateQueued && to == queue.StateLeased
+	case KAck, KAckBatch:
+		return from == queue.StateLeased && to == queue.StateDelivered
+	case KNack, KNackBatch:
+		return from == queue.StateLeased && to == queue.StateQueued
+	case KDead, KDeadBatch:
+		return from == queue.StateLeased && to == queue.StateDead
+	case KCancel, KCancelF:
+		return to == queue.StateCanceled && stateIn(from, allowedStates(k))
+	case KRequeue, KRequeueF, KResume, KResumeF, KRequeueDead:
+		return to == queue.StateQueued && stateIn(from, allowedStates(k))
+	}
+	return false
+}
+
 func stateIn(s queue.State, set []queue.State) bool {
 	for _, x := range set {
 		if x == s {
@@ -515,6 +542,13 @@ func CheckStep(st Step) []Obs {
 	var evicted []vlib.Row
 	for id, r0 := range s0 {
 		r1, present := s1[id]
+		// The documented machine, judged edge by edge whatever the operation's own
+		// expectation says (an operator mutation taking a wrong edge is both a C14
+		// and a C02 matter).
+		if _, isNew := expAdded[id]; present && !isNew && r0.State != r1.State && !legalEdge(op.Kind, r0, r1, now) {
+			add("C02", "illegal_edge", fmt.Sprintf("%s moved %s %s -> %s, which is not an edge of the documented state machine for that operation", op.Kind, id, r0.State, r1.State),
+				map[string]string{"from": string(r0.State), "to": string(r1.State), "op": string(op.Kind)}, id)
+		}
 		if e, touched := exp[id]; touched {
 			switch {
 			case e == nil && present:
@@ -558,6 +592,13 @@ func CheckStep(st Step) []Obs {
 			}
 			add(propFor("C02"), cls, fmt.Sprintf("%s (result %s) changed untargeted message: %s -> %s", op.Kind, res.Err, rowBrief(r0), rowBrief(r1)),
 				map[string]string{"from": string(r0.State), "to": string(r1.State), "error": res.Err}, id)
+			switch op.Kind {
+			case KAck, KNack, KExtend, KDead, KAckBatch, KNackBatch, KDeadBatch:
+				// the only messages a settlement may change are those whose current,
+				// unexpired lease was presented and accepted (they are in exp)
+				add("C04", "stale_lease_effect", fmt.Sprintf("%s (result %s) changed %s although no current unexpired lease of it was accepted: %s -> %s", op.Kind, res.Err, id, rowBrief(r0), rowBrief(r1)),
+					map[string]string{"from": string(r0.State), "to": string(r1.State), "op": string(op.Kind)}, id)
+			}
 			continue
 		}
 		// removed
